@@ -198,6 +198,22 @@ def run(tier, seed):
                     res.violate("after the included file was changed (versions %s), load %d gives %s; a pristine process that sees the same files gives %s"
                                 % (order, k, summary(got[k]), summary(want)), {"check": "file-change", "steps": steps, "step": k})
                     break
+        # process-wide interpreter settings: with the DEFAULT recursion limit a very deep expression fails in a pristine process and
+        # must fail the same way after any other load (and the other way round for a script that loads)
+        deep = {"text": H + "float x = " + "+".join(["1.0"] * 1500) + "\nOp(x) | 0\n"}
+        flat = {"text": H + "".join("Sgate(0.1, [%d]) | %d\n" % (k, k % 7) if False else "Sgate((0.1), (%d)) | %d\n" % (k, k % 7) for k in range(700))}
+        small = {"text": H + "Op(1 + 2) | 0\n"}
+        for hist in ([flat, deep], [deep, flat, deep], [small, deep, small], [flat, small, deep]):
+            got = subproc.run_batch([{"kind": "history", "steps": hist}], 0, None, extra={"reclimit": 1000})[0]["steps"]
+            for k, st in enumerate(hist):
+                want = subproc.run_batch([{"kind": "history", "steps": [st]}], 0, None, extra={"reclimit": 1000})[0]["steps"][0]
+                res.case("reclimit:%d:%d" % (len(hist), k) + st["text"][:40], True, None)
+                res.count("default-recursion-limit")
+                if strip(got[k]) != strip(want):
+                    ok = False
+                    res.violate("with the interpreter's default recursion limit, load %d of a history gives %s; alone in a pristine process it gives %s"
+                                % (k, summary(got[k]), summary(want)), {"check": "reclimit", "steps": hist, "step": k})
+                    break
         res.oblige("correspondence: every load in a history has its pristine-process outcome; results share no mutable state", "correspondence", ok)
         # the model agrees with the pristine outcomes on the text-only entries (ties Tables/denote to the code)
         if status.bbmodel_ok:
@@ -233,6 +249,12 @@ def summary(o):
 def replay(rep):
     inp = rep["input"]
     steps = inp["steps"]
+    if inp.get("check") == "reclimit":
+        k = inp["step"]
+        got = subproc.run_batch([{"kind": "history", "steps": steps}], 0, None, extra={"reclimit": 1000})[0]["steps"][k]
+        want = subproc.run_batch([{"kind": "history", "steps": [steps[k]]}], 0, None, extra={"reclimit": 1000})[0]["steps"][0]
+        print("same as pristine:", strip(got) == strip(want))
+        return 0 if strip(got) == strip(want) else 1
     if inp.get("check") == "file-change":
         k = inp["step"]
         for st in steps:
